@@ -555,6 +555,21 @@ func (g *Gen) DocsMatchingCase() *Case {
 // StatsCase: C16 - statistics of built, loaded and merged segments.
 func (g *Gen) StatsCase() *Case {
 	c := &Case{Family: "stats"}
+	if g.R.Intn(6) == 0 { // fields carried by 128 and more documents (multi-byte varints in the fields section)
+		n := 128 + g.R.Intn(300)
+		b := g.Batch(BatchOpts{NDocs: n, NFields: 3, NVocab: 5, AllFields: g.R.Intn(2) == 0})
+		c.Ops = []Op{{Code: OpBuild, CM: g.ChunkMode(), Batch: b}, {Code: OpReload, Slot: 0, Kind: g.R.Intn(2)},
+			{Code: OpMerge, CM: g.ChunkMode(), Ins: []MergeIn{{Slot: 1, Drops: g.subset(n, 9)}}}, {Code: OpReload, Slot: 2, Kind: g.R.Intn(2)}}
+		for s := 0; s <= 3; s++ {
+			for _, f := range append([]string{"_id", "nosuchfield"}, fieldNames[:3]...) {
+				c.Ops = append(c.Ops, Op{Code: OpStats, Slot: s, F: f})
+			}
+		}
+		c.tag("merge")
+		c.tag("drops_and_survivors")
+		c.tag("wide_counts")
+		return c
+	}
 	c.Ops, _ = g.mergeTree(c, 0)
 	last := g.lastSlot(c.Ops)
 	names := append([]string{"_id", "nosuchfield"}, fieldNames...)
@@ -737,7 +752,26 @@ func (g *Gen) BigMerge() *Case {
 	c := &Case{Family: "big_merge"}
 	r := g.R
 	n := 1030 + r.Intn(200)
-	b := g.Batch(BatchOpts{NDocs: n, NFields: 2, NVocab: 4, ForceDV: true, NoStored: true})
+	o := BatchOpts{NDocs: n, NFields: 2, NVocab: 4, ForceDV: true, NoStored: true}
+	g.bigMerges++
+	switch g.bigMerges % 3 {
+	case 1: // dense: terms (also the empty term) with about 1024 postings each, some above, some below; deletions move them across
+		n = 1400 + r.Intn(200)
+		o = BatchOpts{NDocs: n, NFields: 2, NVocab: 3, ForceDV: true, NoStored: true, Dense: true, AllFields: true}
+		c.tag("dense_big")
+	case 2: // a whole doc-value chunk without one field
+		n = 2100 + r.Intn(300)
+		hole := fieldNames[r.Intn(2)]
+		o = BatchOpts{NDocs: n, NFields: 2, NVocab: 4, ForceDV: true, NoStored: true, AllFields: true,
+			SkipField: func(d int) string {
+				if d >= 1024 && d < 2048 {
+					return hole
+				}
+				return ""
+			}}
+		c.tag("dv_hole")
+	}
+	b := g.Batch(o)
 	b2 := g.Batch(BatchOpts{NDocs: 3 + r.Intn(5), NFields: 2, NVocab: 4, ForceDV: true, IDPrefix: "x"})
 	c.tagBatch(b, 1025)
 	d := g.subset(n, 7)
@@ -814,5 +848,64 @@ func (g *Gen) LayoutCase(big bool) *Case {
 	for s := 0; s <= last; s++ {
 		c.Ops = append(c.Ops, Op{Code: OpLayout, Slot: s})
 	}
+	return c
+}
+
+// ChunkBoundaryMerge: a merge in the adaptive chunk mode whose terms sit around
+// the 1,024-posting boundary where the number of chunks changes: a term above
+// it in every document, a term that the deletions take from above to below it,
+// fields whose first term is the empty term with few postings right after a
+// field whose last term has many.  Writer and reader must derive the same
+// chunk size from the same cardinality (C02, C05, C10).
+func (g *Gen) ChunkBoundaryMerge() *Case {
+	c := &Case{Family: "chunk_boundary_merge"}
+	r := g.R
+	n := 1300 + r.Intn(120)
+	edge := 1030 + r.Intn(25)
+	var b Batch
+	for d := 0; d < n; d++ {
+		body := Field{N: "body", DV: true}
+		add := func(f *Field, t string, withLoc bool) {
+			tm := Term{T: []byte(t), Freq: 1 + r.Intn(2)}
+			if withLoc && r.Intn(3) == 0 {
+				tm.Locs = []Loc{{Pos: 1 + r.Intn(5), Start: r.Intn(200), End_: 200 + r.Intn(9)}}
+			}
+			f.Len += tm.Freq
+			f.Terms = append(f.Terms, tm)
+		}
+		add(&body, "ab", true) // every document: stays above 1,024 after the deletions
+		if d < edge {
+			add(&body, "a", false) // above 1,024 before, below after the deletions
+		}
+		if r.Intn(5) < 2 {
+			add(&body, "", true)
+		}
+		title := Field{N: "title", DV: true}
+		if r.Intn(10) < 3 {
+			add(&title, "", false) // first term of the field, few hundred postings
+		}
+		if r.Intn(2) == 0 {
+			add(&title, "zz", true)
+		}
+		doc := Doc{idField("k"+string(rune('a'+d%26))+string(rune('a'+(d/26)%26))+string(rune('a'+d/676)), r.Intn(4) == 0), body}
+		if len(title.Terms) > 0 {
+			doc = append(doc, title)
+		}
+		b = append(b, doc)
+	}
+	// the second input only has _id: it must not add terms to body or title
+	b2 := Batch{{idField("x0", true)}, {idField("x1", false)}}
+	drops := g.subset(n, 12)
+	c.Ops = []Op{{Code: OpBuild, CM: 1025, Batch: b}, {Code: OpBuild, CM: 3, Batch: b2},
+		{Code: OpMerge, CM: 1025, Ins: []MergeIn{{Slot: 0, Drops: drops}, {Slot: 1, DropsNil: true}}},
+		{Code: OpObsAll, Slot: 2}, {Code: OpLayout, Slot: 2},
+		{Code: OpIter, Slot: 2, F: "body", T: []byte("a"), ExceptNil: true, Except: []uint64{}, Flags: [3]bool{true, true, true},
+			IterOps: []IterOp{{}, {Adv: true, D: 500}, {}, {Adv: true, D: 900}, {}, {Adv: true, D: uint64(n)}, {}}},
+		{Code: OpIter, Slot: 2, F: "title", T: []byte(""), Except: g.subset(n, 9), Flags: [3]bool{true, true, false},
+			IterOps: []IterOp{{}, {}, {Adv: true, D: 700}, {}}}}
+	c.tag("merge")
+	c.tag("drops_and_survivors")
+	c.tag("multi_chunk")
+	c.tag("chunk_boundary")
 	return c
 }
